@@ -142,10 +142,15 @@ class ConcCtx(object):
         except ValueError:
             raise ConcAbort('invalid date')
 
-    def time(self, name):
-        import datetime
+    def time(self, name, tz='naive', offset_range=(-840, 840)):
+        import datetime, pytz
+        tzinfo = None
+        if tz == 'utc':
+            tzinfo = pytz.utc
+        elif tz == 'offset':
+            tzinfo = pytz.FixedOffset(self.int(name + '_off', *offset_range))
         return datetime.time(self.int(name + '_H', 0, 23), self.int(name + '_M', 0, 59),
-                             self.int(name + '_S', 0, 59), self.int(name + '_us', 0, 999999))
+                             self.int(name + '_S', 0, 59), self.int(name + '_us', 0, 999999), tzinfo)
 
     def datetime(self, name, tz='naive', ymin=1, ymax=9999, offset_range=(-840, 840)):
         import datetime, pytz
